@@ -81,9 +81,11 @@ const (
 	tSlI64 // []int64 table
 	tSlU64 // []uint64 table
 	tSlInt // []int table
+	tSlProj  // slice of (pointers to) a repository struct, PROJECTED to the one 64-bit field the function reads of its elements
+	tProjElem // element of such a slice: can be moved (append) and have that field selected, nothing else
 )
 
-func (t gty) isTab() bool { return t == tSlI64 || t == tSlU64 || t == tSlInt }
+func (t gty) isTab() bool { return t == tSlI64 || t == tSlU64 || t == tSlInt || t == tSlProj }
 func (t gty) elem() gty {
 	switch t {
 	case tSlI64:
@@ -94,6 +96,8 @@ func (t gty) elem() gty {
 		return tInt
 	case tBytes:
 		return tByte
+	case tSlProj:
+		return tProjElem
 	}
 	return tBad
 }
@@ -116,8 +120,10 @@ func (t gty) lean() string {
 		return "Option String"
 	case tByte:
 		return "Nat"
-	case tSlI64, tSlU64, tSlInt:
+	case tSlI64, tSlU64, tSlInt, tSlProj:
 		return "List (BitVec 64)"
+	case tProjElem:
+		return "BitVec 64"
 	}
 	return "UNSUPPORTED"
 }
@@ -340,6 +346,9 @@ type trFn struct {
 	exits    map[token.Pos]int
 	nilable  map[string]bool
 	size     int
+	projField string // the one field selected on elements of struct slices (`xs[i].F`), "" = none
+	projTy    gty
+	appendTarget string // the variable being assigned: `x = append(x, …)` / `x = x[:0]` are allowed only back onto x
 	loop     *trLoop // the loop whose body is being translated (nil outside loops; nested loops are refused)
 	sawLoop  bool
 }
@@ -402,6 +411,16 @@ func (f *trFn) typeOf(file *ast.File, e ast.Expr) gty {
 	case *ast.ArrayType:
 		if id, ok := e.Elt.(*ast.Ident); ok && (id.Name == "byte" || id.Name == "uint8") {
 			return tBytes // [N]byte and []byte: the bytes
+		}
+		if e.Len == nil && f != nil && f.projField != "" {
+			if fty, _, _ := f.structField(file, e.Elt, f.projField); fty == tU64 || fty == tI64 || fty == tInt {
+				if f.projTy == tBad {
+					f.projTy = fty
+				}
+				if f.projTy == fty {
+					return tSlProj
+				}
+			}
 		}
 		if id, ok := e.Elt.(*ast.Ident); ok && e.Len == nil {
 			switch id.Name {
@@ -723,6 +742,13 @@ func (f *trFn) expr(st *trState, e ast.Expr) tval {
 		}
 		refuse("identifier %s is not a local of the subset, an input, or a package-level constant", e.Name)
 	case *ast.SelectorExpr:
+		if ix, ok := e.X.(*ast.IndexExpr); ok {
+			v := f.expr(st, ix)
+			if v.ty == tProjElem && e.Sel.Name == f.projField {
+				return tval{lean: v.lean, ty: f.projTy} // the projection IS the field
+			}
+			refuse("selector %s", f.t.src(e))
+		}
 		if q, ok := e.X.(*ast.Ident); ok {
 			if _, isLocal := st.vars[q.Name]; !isLocal {
 				if path := f.t.importPath(f.file, q.Name); strings.HasPrefix(path, trModulePath) {
@@ -737,6 +763,11 @@ func (f *trFn) expr(st *trState, e ast.Expr) tval {
 		if e.Low == nil && e.High == nil && e.Max == nil {
 			if v := f.expr(st, e.X); v.ty == tBytes {
 				return v
+			}
+		}
+		if e.Low == nil && e.Max == nil && e.High != nil && f.t.src(e.High) == "0" {
+			if v := f.expr(st, e.X); v.ty == tSlProj && f.appendTarget != "" && f.appendTarget == f.t.src(e.X) {
+				return tval{lean: "[]", ty: tSlProj, frsh: true} // x = x[:0]: the empty slice, still the only owner of its array
 			}
 		}
 		refuse("slice expression %s", f.t.src(e))
@@ -1019,6 +1050,38 @@ func (f *trFn) call(st *trState, e *ast.CallExpr) tval {
 			return tval{lean: "(Go.len " + v.lean + ")", ty: tInt}
 		}
 	}
+	if fun == "make" && len(e.Args) >= 2 && f.typeOf(f.file, e.Args[0]) == tSlProj && f.t.src(e.Args[1]) == "0" {
+		for _, a := range e.Args[2:] { // the capacity: a non-negative constant or a len(...)
+			c := f.expr(st, a)
+			if c.cv != nil {
+				if constant.Sign(constant.ToInt(c.cv)) < 0 {
+					refuse("make with a negative constant capacity")
+				}
+			} else if c.ty.isSigned() {
+				f.panicSite("(decide (BitVec.toInt " + c.lean + " < 0))") // make panics on a negative capacity
+			} else if !c.ty.isInt() {
+				refuse("make with capacity %s", f.t.src(a))
+			}
+		}
+		return tval{lean: "[]", ty: tSlProj, frsh: true}
+	}
+	if fun == "append" && len(e.Args) == 2 {
+		x := f.expr(st, e.Args[0])
+		if x.ty != tSlProj {
+			refuse("append to %s", f.t.src(e.Args[0]))
+		}
+		if f.appendTarget == "" || f.appendTarget != f.t.src(e.Args[0]) {
+			refuse("%s: the result of append must be assigned back to its first argument (no aliasing)", f.t.src(e))
+		}
+		y := f.expr(st, e.Args[1])
+		switch {
+		case e.Ellipsis.IsValid() && y.ty == tSlProj:
+			return tval{lean: "(" + x.lean + " ++ " + y.lean + ")", ty: tSlProj, frsh: true}
+		case !e.Ellipsis.IsValid() && y.ty == tProjElem:
+			return tval{lean: "(" + x.lean + " ++ [" + y.lean + "])", ty: tSlProj, frsh: true}
+		}
+		refuse("append %s", f.t.src(e))
+	}
 	switch {
 	case fun == "new" && len(e.Args) == 1 && f.typeOf(f.file, &ast.StarExpr{X: e.Args[0]}) == tBig:
 		return tval{lean: "(0 : Int)", ty: tBig, frsh: true}
@@ -1165,6 +1228,9 @@ func (f *trFn) bind(st *trState, key string, v tval, declare bool) string {
 	} else {
 		v = f.typed(v, st.vars[key])
 	}
+	if st.vars[key] == tSlProj && !v.frsh {
+		refuse("%s: copy of a slice (aliasing of the underlying array)", key)
+	}
 	if st.vars[key] == tBig {
 		if !v.frsh && declare {
 			refuse("%s: pointer copy of a *big.Int (aliasing)", key)
@@ -1271,7 +1337,11 @@ func (f *trFn) stmts(st *trState, list []ast.Stmt, k trK) string {
 					return f.flush() + f.bind(st, f.target(st, s.Lhs[0]), v, false) + next(st)
 				}
 			}
+			if s.Tok == token.ASSIGN {
+				f.appendTarget = f.t.src(s.Lhs[0])
+			}
 			v := f.expr(st, s.Rhs[0])
+			f.appendTarget = ""
 			key := f.t.src(s.Lhs[0])
 			if s.Tok == token.ASSIGN {
 				key = f.target(st, s.Lhs[0])
@@ -1750,6 +1820,21 @@ func (t *translator) translate(sp *trSpec) (def string, sig *trSig) {
 		}
 		assumed := []string{}
 		if !f.frag {
+			// struct slices are projected to the ONE field the body selects on their elements (`xs[i].F`)
+			pf := map[string]bool{}
+			ast.Inspect(fd.decl.Body, func(n ast.Node) bool {
+				if se, ok := n.(*ast.SelectorExpr); ok {
+					if _, ok := se.X.(*ast.IndexExpr); ok {
+						pf[se.Sel.Name] = true
+					}
+				}
+				return true
+			})
+			if len(pf) == 1 {
+				for k := range pf {
+					f.projField = k
+				}
+			}
 			// nil tests on *big.Int parameters
 			ast.Inspect(fd.decl.Body, func(n ast.Node) bool {
 				if be, ok := n.(*ast.BinaryExpr); ok && (be.Op == token.EQL || be.Op == token.NEQ) {
